@@ -67,7 +67,7 @@ def _run_chunk(binary, wd, idx, scenarios, timeout):
     crashes = {}
     deadline = time.time() + timeout
     while start < len(scenarios):
-        env = dict(os.environ, VH_IN=inp, VH_OUT=outp, VH_FROM=str(start))
+        env = dict(os.environ, VH_IN=inp, VH_OUT=outp, VH_FROM=str(start), GORACE="halt_on_error=1")
         try:
             p = subprocess.run([binary, "-test.run", "^TestWorker$", "-test.timeout", "0"], env=env, capture_output=True,
                                text=True, timeout=max(5, deadline - time.time()))
@@ -87,6 +87,17 @@ def _run_chunk(binary, wd, idx, scenarios, timeout):
             raise Infra("worker failed before the first scenario: " + p.stderr[-2000:])
         if last_finish is not None and last_finish["idx"] == last_start["idx"]:
             # orderly exit after a hang
+            start = last_start["idx"] + 1
+            continue
+        if "WARNING: DATA RACE" in p.stderr:
+            # the race detector stopped the worker (GORACE=halt_on_error=1)
+            rep = p.stderr[p.stderr.index("WARNING: DATA RACE"):][:6000]
+            frames = re.findall(r"^  (\S+)\(", rep, re.M)
+            libf = [x for x in frames if "vbauerster/mpb" in x]
+            with open(outp, "a") as f:
+                f.write(json.dumps({"ev": "race", "tr": last_start["tr"], "seq": 10 ** 9, "msg": " | ".join(libf[:8]),
+                                    "lib": bool(libf), "report": rep}) + "\n")
+                f.write(json.dumps({"ev": "finish", "tr": last_start["tr"], "idx": last_start["idx"], "fatal": "race"}) + "\n")
             start = last_start["idx"] + 1
             continue
         # the process died inside a scenario: a panic in a library goroutine (or a fatal error)
